@@ -188,6 +188,93 @@ def _call_local_param(p, fi, param, _depth=0):
     return True
 
 
+def _bookkeeping_closed(p, fi):
+    """Do the reads of `children` in fi (and, for a method, in the other methods of its class) flow only back into the
+    bookkeeping list itself?  A small taint analysis over the class: values derived from `.children` (its length, a slice,
+    its elements) may be kept in locals / attributes of self and may be used to index, slice, delete from or remove from a
+    `.children` list - nothing else (not returned, not passed on, not deciding anything but such statements).  Roll-back of
+    the children registered by a failed derivation has this shape; a result that depends on earlier derivations has not."""
+    fns = [f for f in p.functions.values() if f.cls is fi.cls] if fi.cls is not None else [fi]
+    MUT = {'append', 'extend', 'insert', 'pop', 'remove', 'clear', 'sort', 'reverse'}
+    t_attrs = set()
+    t_locals = {f.qual: set() for f in fns}
+
+    def is_children(e):
+        return isinstance(e, ast.Attribute) and e.attr == 'children'
+
+    def tainted(e, f):
+        for n in ast.walk(e):
+            if is_children(n) and isinstance(n.ctx, ast.Load):
+                return True
+            if isinstance(n, ast.Name) and isinstance(n.ctx, ast.Load) and n.id in t_locals[f.qual]:
+                return True
+            if isinstance(n, ast.Attribute) and isinstance(n.ctx, ast.Load) and isinstance(n.value, ast.Name) \
+                    and f.params and n.value.id == f.params[0] and n.attr in t_attrs:
+                return True
+        return False
+    for _ in range(6):
+        before = (len(t_attrs), sum(len(v) for v in t_locals.values()))
+        for f in fns:
+            for n in ast.walk(f.node):
+                if isinstance(n, (ast.Assign, ast.AnnAssign, ast.AugAssign)) and n.value is not None and tainted(n.value, f):
+                    for t in (n.targets if isinstance(n, ast.Assign) else [n.target]):
+                        if isinstance(t, ast.Name):
+                            t_locals[f.qual].add(t.id)
+                        elif isinstance(t, ast.Attribute) and isinstance(t.value, ast.Name) and f.params and t.value.id == f.params[0]:
+                            t_attrs.add(t.attr)
+                if isinstance(n, (ast.For, ast.comprehension)) and tainted(n.iter, f):
+                    for x in ast.walk(n.target):
+                        if isinstance(x, ast.Name):
+                            t_locals[f.qual].add(x.id)
+        if before == (len(t_attrs), sum(len(v) for v in t_locals.values())):
+            break
+
+    def allowed(st, f):
+        if isinstance(st, (ast.Assign, ast.AnnAssign)):
+            tg = st.targets if isinstance(st, ast.Assign) else [st.target]
+            return all(isinstance(t, ast.Name) or (isinstance(t, ast.Attribute) and isinstance(t.value, ast.Name) and f.params
+                                                   and t.value.id == f.params[0]) for t in tg) \
+                and not any(isinstance(x, ast.Call) and not (isinstance(x.func, ast.Name) and x.func.id in ('len', 'list', 'tuple'))
+                            for x in ast.walk(st.value or ast.Pass()))
+        if isinstance(st, ast.Expr) and isinstance(st.value, ast.Call) and isinstance(st.value.func, ast.Attribute) \
+                and st.value.func.attr in MUT and is_children(st.value.func.value):
+            return True
+        if isinstance(st, ast.Delete):
+            return all(isinstance(t, ast.Subscript) and is_children(t.value) for t in st.targets)
+        if isinstance(st, ast.For):
+            return not st.orelse and all(allowed(x, f) or not tainted(x, f) and not _has_exit(x) for x in st.body)
+        if isinstance(st, ast.If):
+            return all(allowed(x, f) for x in st.body + st.orelse)
+        return False
+
+    def _has_exit(st):
+        return any(isinstance(x, (ast.Return, ast.Raise, ast.Break, ast.Continue, ast.Yield)) for x in ast.walk(st))
+
+    def check_block(stmts, f):
+        for st in stmts:
+            if isinstance(st, (ast.FunctionDef, ast.ClassDef)):
+                continue
+            if tainted(st, f):
+                if allowed(st, f):
+                    continue
+                # a compound statement whose header is clean may hold tainted statements deeper down
+                if isinstance(st, (ast.If, ast.While, ast.Try, ast.With, ast.For)):
+                    hdr = [st.test] if isinstance(st, (ast.If, ast.While)) else ([st.iter] if isinstance(st, ast.For) else
+                                                                                 [i.context_expr for i in st.items] if isinstance(st, ast.With) else [])
+                    if any(tainted(h, f) for h in hdr):
+                        return False
+                    for fld in ('body', 'orelse', 'finalbody'):
+                        if not check_block(getattr(st, fld, []) or [], f):
+                            return False
+                    for h in getattr(st, 'handlers', []) or []:
+                        if not check_block(h.body, f):
+                            return False
+                    continue
+                return False
+        return True
+    return all(check_block(f.node.body, f) for f in fns)
+
+
 def _is_none_test(test, selfname, attr):
     return isinstance(test, ast.Compare) and len(test.ops) == 1 and isinstance(test.ops[0], ast.Is) \
         and isinstance(test.comparators[0], ast.Constant) and test.comparators[0].value is None \
@@ -808,6 +895,11 @@ def run(ctx):
                             ob.evaluations += 1
                             ob.note('%s is a container view of the children list (node truthiness is pinned by __bool__)' % fi.qual[len(PKG) + 1:])
                             continue
+                    if not ok and fi.cls is not None and not fi.cls.name.endswith('KeyNode') and _bookkeeping_closed(p, fi):
+                        ob.evaluations += 1
+                        ob.note('%s reads `children` only to maintain the bookkeeping list itself (what is read flows into '
+                                'nothing but slices, deletions and removals on a children list)' % fi.qual[len(PKG) + 1:])
+                        continue
                     ob.require(ok, '%s reads the bookkeeping list `children` (%s): results could depend on which children were '
                                'derived before (history), which this property forbids relying on; a semantically transparent cache '
                                'cannot be told apart statically and is reported too' % (fi.qual[len(PKG) + 1:], ast.unparse(par) if par is not None else 'children'), where)
